@@ -140,36 +140,34 @@ func matchStatement(cur Statement, node ipld.Node) (_ matchResult, leafMost Stat
 		}
 	case KindAnd:
 		if s, ok := cur.(connective); ok {
+			// The outcome must not depend on the order of the statements: a false statement is
+			// decisive, otherwise missing data wins over missing optional data, which wins over true.
+			acc, accLeaf := matchResultTrue, Statement(nil)
 			for _, cs := range s.statements {
 				res, leaf := matchStatement(cs, node)
-				switch res {
-				case matchResultNoData, matchResultOptionalNoData:
-					return res, leaf
-				case matchResultTrue:
-					// continue
-				case matchResultFalse:
+				if res == matchResultFalse {
 					return matchResultFalse, leaf
 				}
+				acc, accLeaf = accumulate(acc, accLeaf, res, leaf, matchResultTrue)
 			}
-			return matchResultTrue, nil
+			return acc, accLeaf
 		}
 	case KindOr:
 		if s, ok := cur.(connective); ok {
 			if len(s.statements) == 0 {
 				return matchResultTrue, nil
 			}
+			// Same as above: a true statement is decisive, otherwise missing data wins over
+			// missing optional data, which wins over false.
+			acc, accLeaf := matchResultFalse, cur
 			for _, cs := range s.statements {
 				res, leaf := matchStatement(cs, node)
-				switch res {
-				case matchResultNoData, matchResultOptionalNoData:
-					return res, leaf
-				case matchResultTrue:
+				if res == matchResultTrue {
 					return matchResultTrue, leaf
-				case matchResultFalse:
-					// continue
 				}
+				acc, accLeaf = accumulate(acc, accLeaf, res, leaf, matchResultFalse)
 			}
-			return matchResultFalse, cur
+			return acc, accLeaf
 		}
 	case KindLike:
 		if s, ok := cur.(wildcard); ok {
@@ -199,22 +197,20 @@ func matchStatement(cur Statement, node ipld.Node) (_ matchResult, leafMost Stat
 			if it == nil {
 				return matchResultFalse, cur // not a list
 			}
+			// The outcome must not depend on the order of the elements, see KindAnd.
+			acc, accLeaf := matchResultTrue, Statement(nil)
 			for !it.Done() {
 				_, v, err := it.Next()
 				if err != nil {
 					panic("should never happen")
 				}
 				matchRes, leaf := matchStatement(s.statement, v)
-				switch matchRes {
-				case matchResultNoData, matchResultOptionalNoData:
-					return matchRes, leaf
-				case matchResultTrue:
-					// continue
-				case matchResultFalse:
+				if matchRes == matchResultFalse {
 					return matchResultFalse, leaf
 				}
+				acc, accLeaf = accumulate(acc, accLeaf, matchRes, leaf, matchResultTrue)
 			}
-			return matchResultTrue, nil
+			return acc, accLeaf
 		}
 	case KindAny:
 		if s, ok := cur.(quantifier); ok {
@@ -229,25 +225,37 @@ func matchStatement(cur Statement, node ipld.Node) (_ matchResult, leafMost Stat
 			if it == nil {
 				return matchResultFalse, cur // not a list
 			}
+			// The outcome must not depend on the order of the elements, see KindOr.
+			acc, accLeaf := matchResultFalse, cur
 			for !it.Done() {
 				_, v, err := it.Next()
 				if err != nil {
 					panic("should never happen")
 				}
 				matchRes, leaf := matchStatement(s.statement, v)
-				switch matchRes {
-				case matchResultNoData, matchResultOptionalNoData:
-					return matchRes, leaf
-				case matchResultTrue:
+				if matchRes == matchResultTrue {
 					return matchResultTrue, nil
-				case matchResultFalse:
-					// continue
 				}
+				acc, accLeaf = accumulate(acc, accLeaf, matchRes, leaf, matchResultFalse)
 			}
-			return matchResultFalse, cur
+			return acc, accLeaf
 		}
 	}
 	panic(fmt.Errorf("unimplemented statement kind: %s", cur.Kind()))
+}
+
+// accumulate folds the result of one more operand (or element) into the running result of a
+// connective or quantifier whose decisive result has already been handled by the caller:
+// missing data wins over missing optional data, which wins over the neutral result.
+// The statement kept alongside is the one of the first operand that produced the running result.
+func accumulate(acc matchResult, accLeaf Statement, res matchResult, leaf Statement, neutral matchResult) (matchResult, Statement) {
+	switch {
+	case res == matchResultNoData && acc != matchResultNoData:
+		return res, leaf
+	case res == matchResultOptionalNoData && acc == neutral:
+		return res, leaf
+	}
+	return acc, accLeaf
 }
 
 // isOrdered compares two IPLD nodes and returns true if they satisfy the given ordering function.
